@@ -42,14 +42,20 @@ const (
 	fY1        // advisory Y, body 1
 	fNoAdv
 	fNoID
+	fX3 // advisory X, body 1 except for a nested CVSS score (conflicts with fX1 only deep inside the struct)
+	nFindingKinds
 )
 
-var fNames = []string{"X/body1", "X/body2", "Y/body1", "no-advisory", "no-advisory-id"}
+var fNames = []string{"X/body1", "X/body2", "Y/body1", "no-advisory", "no-advisory-id", "X/body1-other-cvss"}
 
 func mkFinding(k int, extra string) *detector.Finding {
 	switch k {
 	case fX1:
-		return &detector.Finding{Adv: &detector.Advisory{ID: &detector.AdvisoryID{Publisher: "P", Reference: "X"}, Title: "body1"}, Extra: extra}
+		return &detector.Finding{Adv: &detector.Advisory{ID: &detector.AdvisoryID{Publisher: "P", Reference: "X"}, Title: "body1",
+			Sev: &detector.Severity{Severity: detector.SeverityHigh, CVSSV3: &detector.CVSS{BaseScore: 7.5}}}, Extra: extra}
+	case fX3:
+		return &detector.Finding{Adv: &detector.Advisory{ID: &detector.AdvisoryID{Publisher: "P", Reference: "X"}, Title: "body1",
+			Sev: &detector.Severity{Severity: detector.SeverityHigh, CVSSV3: &detector.CVSS{BaseScore: 9.8}}}, Extra: extra}
 	case fX2:
 		return &detector.Finding{Adv: &detector.Advisory{ID: &detector.AdvisoryID{Publisher: "P", Reference: "X"}, Title: "body2"}, Extra: extra}
 	case fY1:
@@ -80,12 +86,12 @@ func (s script) String() string {
 func scripts(maxLen int) []script {
 	var lists [][]int
 	lists = append(lists, nil)
-	for a := 0; a < 5; a++ {
+	for a := 0; a < nFindingKinds; a++ {
 		lists = append(lists, []int{a})
 	}
 	if maxLen >= 2 {
-		for a := 0; a < 5; a++ {
-			for b := 0; b < 5; b++ {
+		for a := 0; a < nFindingKinds; a++ {
+			for b := 0; b < nFindingKinds; b++ {
 				lists = append(lists, []int{a, b})
 			}
 		}
@@ -244,10 +250,14 @@ func runCase(c cfgT) (key, detail string) {
 				invalid = true
 				continue
 			}
-			if t, ok := seen[fd.Adv.ID.Reference]; ok && t != fd.Adv.Title {
+			body := fd.Adv.Title
+			if fd.Adv.Sev != nil && fd.Adv.Sev.CVSSV3 != nil {
+				body += fmt.Sprintf("/cvss3=%v", fd.Adv.Sev.CVSSV3.BaseScore)
+			}
+			if t, ok := seen[fd.Adv.ID.Reference]; ok && t != body {
 				invalid = true
 			}
-			seen[fd.Adv.ID.Reference] = fd.Adv.Title
+			seen[fd.Adv.ID.Reference] = body
 			wantFindings = append(wantFindings, fmt.Sprintf("%s|%s|%s|det-%d", fd.Adv.ID.Reference, fd.Adv.Title, fd.Extra, i))
 		}
 	}
@@ -376,5 +386,5 @@ func main() {
 		}
 		r.Set(fmt.Sprintf("detector_lists_of_length_%d", pl.k), total)
 	}
-	r.Finish("every ordered list of 0..2 detectors over all 62 scripts (finding lists of length <=2 over {X/body1, X/body2, Y/body1, no advisory, no advisory id} x {ok, error}) x all 16 inventories (2 packages from a filesystem extractor, 2 from a standalone extractor, one without PURL, two versions of one name); lists of 3 over the 12 short scripts (thorough: all 62 scripts x 3 inventories; lists of 4 over short scripts); real Scanner.Scan vs reference model of the detector run", complete)
+	r.Finish("every ordered list of 0..2 detectors over all 86 scripts (finding lists of length <=2 over {X/body1, X/body2 (other title), X/body1 with another nested CVSS score, Y/body1, no advisory, no advisory id} x {ok, error}) x all 16 inventories (2 packages from a filesystem extractor, 2 from a standalone extractor, one without PURL, two versions of one name); lists of 3 over the 14 short scripts (thorough: all 86 scripts x 3 inventories; lists of 4 over short scripts); real Scanner.Scan vs reference model of the detector run", complete)
 }
